@@ -40,6 +40,9 @@ def run(ctx):
     ctx.step(rollback_source, ctx)
     ctx.step(c06.capture, ctx, "C20.deferred")
     ctx.step(c06.exception_identity, ctx, "C20.deferred-exc")
+    # a functor that runs in the submitting thread (lock obtained) is applied directly, after the drain: its exception
+    # reaches the submitter instead of vanishing in a packaged_task nobody holds a future for
+    ctx.step(c06.submit, ctx, "C20.deferred-submit")
     ctx.step(c16.unlocked, ctx, "C20.dd-unlocked")
     # DelayedObjects: a throwing payload copy inside set_value must not leave the request half-retired
     from . import c18
